@@ -47,6 +47,15 @@ THEOREMS = [
   from_symbols [(a, [])] = Ok {| ht_tree := FLeaf a; ht_longest := 0 |} /\
   from_symbols [(a, [false]); (b, [true])] = Ok {| ht_tree := FNode (FLeaf a) (FLeaf b); ht_longest := 1 |}"""),
 ]
+_LREQ = ["From Coq Require Import List NArith Bool Sorted Permutation.",
+         "From MS Require Import Base.Bytes Base.Outcome Webp.Huffman Props.C18l.", "Open Scope N_scope."]
+THEOREMS = THEOREMS + [
+    ("C18_listing_order_irrelevant", r"""forall l l' : list (N * N), Permutation l l' ->
+  symbols l = symbols l' /\ new l = new l'"""),
+]
+REQUIRES_FOR = {"C18_listing_order_irrelevant": _LREQ}
+COQ_TARGETS = COQ_TARGETS + ["theories/Props/C18l.vo"]
+COQCHK = COQCHK + ["MS.Props.C18l"]
 TRUSTED = [
     "Coq 8.16.1 kernel (coqc; coqchk in the thorough tier); vm_compute for the Examples only; no native_compute",
     "axioms: none (Print Assumptions of every theorem = Closed under the global context)",
@@ -362,6 +371,23 @@ def gen(run):
         v = random_vector(rng, size, "complete")
         nb = rng.choice([33000, 40000]) if quick else rng.randint(33000, 60000)
         yield huff_line(v, rand_bits(rng, nb)), "long-bits"
+    # the same codes with the (symbol, length) pairs listed in another order: reversed, rotated, shuffled, the code-length wire order,
+    # used symbols only / used symbols first; the code must be the canonical one whatever the listing ("ties by symbol value")
+    WIRE = [17, 18, 0, 1, 2, 3, 4, 5, 16, 6, 7, 8, 9, 10, 11, 12, 13, 14, 15]
+    lst = [v for v in small_vectors(5, 4)][:: (7 if quick else 2)]
+    for size in (19, 40, 256, 280):
+        for kind in ("complete", "complete", "under", "single"):
+            for _ in range(3 if quick else 40):
+                lst.append(random_vector(rng, size, kind))
+    for v in lst:
+        pairs = list(enumerate(v))
+        orders = [list(reversed(pairs)), pairs[len(pairs) // 2:] + pairs[:len(pairs) // 2], rng.sample(pairs, len(pairs)),
+                  [p for p in pairs if p[1]] + [p for p in pairs if not p[1]], sorted(pairs, key=lambda p: (-p[1], -p[0]))]
+        if len(v) == 19:
+            orders.append([(s, v[s]) for s in WIRE])
+        bits = rand_bits(rng, rng.choice([0, 7, 16, 64, 200]))
+        for o in orders:
+            yield "huffl %s %s %d" % (",".join("%d:%d" % p for p in o) or "-", bits or "-", len(bits) + 1), "listing-order"
     # arbitrary tables
     for _ in range(300 if quick else 6000):
         t = rand_table(rng)
@@ -376,6 +402,12 @@ def _parse(line):
     kind, a, bits, n = t[0], t[1], ("" if t[2] == "-" else t[2]), int(t[3])
     if kind == "huff":
         arg = [] if a == "-" else [int(x) for x in a.split(",")]
+    elif kind == "huffl":
+        # the listing as a symbol-indexed vector: what the code must be is a function of that alone
+        ps = [] if a == "-" else [tuple(int(x) for x in e.split(":")) for e in a.split(",")]
+        arg = [0] * (max((s for s, _ in ps), default=-1) + 1)
+        for s_, l_ in ps:
+            arg[s_] = l_
     else:
         arg = [] if a == "-" else [(int(e.split(":")[0]), e.split(":")[1]) for e in a.split(";")]
     return kind, arg, bits, n
@@ -396,7 +428,7 @@ def classify(line, impl):
 
 def nontrivial(line, impl):
     kind, arg, bits, n = _parse(line)
-    if kind == "huff":
+    if kind in ("huff", "huffl"):
         return sum(1 for l in arg if l) >= 1
     return len(arg) >= 1
 
@@ -412,6 +444,10 @@ def oracle(run, pairs):
     ext = run.driver(spec_lines) if spec_lines and run.driver_bin else {}
     for k, (line, impl) in enumerate(pairs):
         kind, arg, bits, n = _parse(line)
+        if kind == "huffl":
+            want = spec_huff(arg, bits, n)
+            out.append((impl == want, "listing order must not matter: expected %s" % want[:120]))
+            continue
         if kind == "huff":
             want = spec_huff(arg, bits, n)
             ok = impl == want
@@ -479,7 +515,8 @@ def coq_bool(line, model_out):
 LEVEL_TEXT = ("Coq theorems (all code-length vectors, all bit strings, no bound) about a hand-written Gallina model of "
               "CanonicalHuffmanTree::{new,from_symbols,symbols,longest_code_len} and bitstream-io's trie builder / decoder, relating it to an "
               "independent specification (Kraft equality, RFC 1951 canonical assignment, decode by table); plus model/implementation "
-              "correspondence: exhaustive over <= 6 symbols x lengths 0..5, seeded random over the real alphabets, random bit strings.")
+              "correspondence: exhaustive over <= 6 symbols x lengths 0..5, seeded random over the real alphabets, random bit strings; the same "
+              "codes with their (symbol, length) pairs listed in other orders (`huffl`; C18_listing_order_irrelevant: permuted listings give the same code).")
 LEVEL_NOTE = ("Trusted: Coq kernel; the hand-written model (tied by the differential check); the specification file; extraction and the OCaml driver; "
               "the Rust harness. No axioms.")
 TECHNIQUE = "Coq proof over a hand-written model + differential check of extracted model vs Rust + specification oracle on implementation outputs"
